@@ -17,10 +17,10 @@ Abs(v) == Op(v, "abs")
 Syms == << I("LDA", Imm("1")), I("LDA", Abs("a")), I("LDA", Op("arr", "x")), I("LDX", Imm("1")), I("LDX", Abs("a")), I("LDY", Abs("b")),
            I("STA", Abs("a")), I("STA", Abs("b")), I("STX", Abs("b")), I("TAX", NoOp), I("TXA", NoOp), I("TAY", NoOp), I("TYA", NoOp),
            I("INX", NoOp), I("INC", Abs("a")), I("ADC", Imm("1")), I("ASL", NoOp), I("ROL", NoOp), I("CLC", NoOp), I("CMP", Imm("1")), I("ORA", Imm("0")),
-           L("l1"), Other, IP("LDA", Abs("a")),
+           L("l1"), Other, IP("LDA", Abs("a")), Asm, I("LDX", Op("arr", "y")), I("INC", Op("arr", "x")),
            \* outside the value semantics / outside the `sound' alphabet
            I("ASL", Abs("a")), I("PHA", NoOp), I("PLA", NoOp), I("BNE", Abs("l1")), I("BEQ", Abs("l1")), I("JMP", Abs("l1")), I("LDA", Imm("2")), I("CPX", Imm("1")) >>
-NSound == 24
+NSound == 27
 VARIABLES idx      \* the sequence, as indices into Syms
 Code == [i \in 1..Len(idx) |-> Syms[idx[i]]]
 Init == idx = <<>>
